@@ -40,6 +40,9 @@ USER_MATS = {
     'fconst': {'k': [20.0], 'melt': 2800.0},             # nitride-like, constant
     'frise': {'k': [8.0, 0.012], 'melt': 1400.0},         # metal-like, rising
     'ffall': {'k': [5.0, -0.0013], 'melt': 3000.0},       # oxide-like, falling
+    # tabulated, read from a file: piecewise linear with a step down at 1100 K (the transition temperature is listed
+    # twice, first with the value below, then with the value above)
+    'ftable': {'table': [[300.0, 4.2], [1100.0, 3.0], [1100.0, 2.7], [3500.0, 1.8]], 'melt': 3000.0},
     'helium': {'k': [0.06, 3.0e-4]},                      # gap gas
     'cladlin': {'k': [23.663354319, 4.01774e-3]},         # linear steel (SE2ANL HT9)
 }
@@ -75,7 +78,7 @@ def fuels(tier):
     if tier != 'quick':
         # restructured pellet: porosity / Zr redistributed over the zones
         out.append({'fuel': 'metal', 'pu': 0.2, 'zr': 0.1, 'por': 0.2, 'profile': 'graded'})
-    for m in ('fconst', 'frise', 'ffall'):
+    for m in ('fconst', 'frise', 'ffall', 'ftable'):
         out.append({'fuel': 'user', 'umat': m, 'profile': 'uniform'})
     if tier != 'quick':
         out.append({'fuel': 'user', 'umat': 'ffall', 'profile': 'mixed'})
@@ -178,8 +181,14 @@ def build_scenario(c, rings=2, pd=1.2, wire=True, q=1000.0, pins='uniform', nste
         if gmat:
             pm['gap_material'] = gmat
         kw = {'pinmodel': pm}
+        files = {}
         for m in sorted(set(z['mats'])) + ['cladlin']:
-            mats[m] = {'thermal_conductivity': USER_MATS[m]['k']}
+            if 'table' in USER_MATS[m]:
+                mats[m] = {'from_file': m + '.csv'}
+                files[m + '.csv'] = 'temperature,thermal_conductivity\n' + ''.join(
+                    '%r,%r\n' % (r_[0], r_[1]) for r_ in USER_MATS[m]['table'])
+            else:
+                mats[m] = {'thermal_conductivity': USER_MATS[m]['k']}
     if gmat == 'helium':
         mats['helium'] = {'thermal_conductivity': USER_MATS['helium']['k']}
     dsn = S.design(rings, pd=pd, wire=wire, oftf=c['oftf'], clad_frac=c['clad_frac'], **kw)
@@ -188,6 +197,8 @@ def build_scenario(c, rings=2, pd=1.2, wire=True, q=1000.0, pins='uniform', nste
     scn = S.single(dsn, 0.045 * npin, length=nsteps_len, power=power)
     if mats:
         scn['materials'] = mats
+    if c['fuel'] != 'metal' and files:
+        scn['files'] = dict(scn.get('files') or {}, **files)
     if c.get('unit'):
         # the same pin written in another length unit (harness-side conversion of vf.props.c17);
         # the harness's own description `dsn` stays in metres
@@ -198,6 +209,32 @@ def build_scenario(c, rings=2, pd=1.2, wire=True, q=1000.0, pins='uniform', nste
 
 # ---------------------------------------------------------------------------
 # the harness' own description of the pin (geometry + conductivities)
+def _table(tab):
+    """the user's table read the usual way: linear between rows, the later row wins at a repeated temperature, constant
+    beyond the ends (own evaluation, no numpy.interp)"""
+    xs = [float(r[0]) for r in tab]
+    ys = [float(r[1]) for r in tab]
+
+    def k1(T):
+        T = float(T)
+        if T < xs[0]:
+            return ys[0]
+        if T >= xs[-1]:
+            return ys[-1]
+        i = max(j for j in range(len(xs)) if xs[j] <= T)
+        return ys[i] + (ys[i + 1] - ys[i]) * (T - xs[i]) / (xs[i + 1] - xs[i])
+
+    def k(T):
+        if np.ndim(T) == 0:
+            return k1(T)
+        return np.array([k1(t) for t in np.ravel(T)]).reshape(np.shape(T))
+    return k
+
+
+def _kfun(m):
+    return _table(USER_MATS[m]['table']) if 'table' in USER_MATS[m] else _poly(USER_MATS[m]['k'])
+
+
 def _poly(co):
     co = [float(x) for x in co]
 
@@ -243,7 +280,7 @@ class Pin(object):
             self.melt = [T_MELT_METAL] * c['zones']
         else:
             self.kclad = _poly(USER_MATS['cladlin']['k'])
-            self.kfuel = [_poly(USER_MATS[m]['k']) for m in z['mats']]
+            self.kfuel = [_kfun(m) for m in z['mats']]
             self.melt = [USER_MATS[m]['melt'] for m in z['mats']]
         if gmat == 'helium':
             self.kgap = _poly(USER_MATS['helium']['k'])
